@@ -311,4 +311,6 @@ def check(ctx, R):
     R.run("C09.packed", c09_prims.rule_packed, ctx)
     R.run("C09.packed", c09_prims.rule_ds_running, ctx)
     R.run("C09.dict", c09_prims.rule_dict, ctx)
+    R.run("C09.json", c09_prims.rule_json, ctx)
+    R.run("C09.varint", c09_prims.rule_varint, ctx)
     return {}
